@@ -159,6 +159,18 @@ def roundtrip_part(ctx, binary):
                 for ctxt in ([{"t": "t", "v": txt}], [{"t": "e", "n": [98], "a": [], "c": []}, {"t": "t", "v": txt}],
                              [{"t": "t", "v": txt}, {"t": "e", "n": [98], "a": [], "c": []}]):
                     ops.append("rt %d %s" % (len(ops) % 2, tree_op({"t": "e", "n": [97], "a": [], "c": ctxt})))
+    # the same texts written raw behind / in front of a comment (round 7: the parser's look-ahead for a tag fails on them and has
+    # to come back to the end of the comment, not in front of it); '<' and '&' are the only characters a text must escape
+    for lead in ([], [32], [10, 9]):
+        for first in ([47, 117, 115, 114], [47], [47, 62], [34, 120], [39, 116, 105, 115], [61, 49], [62, 62], [47, 47, 34]):
+            txt = lead + first
+            raw = b"".join(ESC[c] if c in (60, 38) else bytes([c]) for c in txt)
+            for com in COMMENTS[:4]:
+                for before, after in ((com, b""), (com, com), (b"", com), (com + com, b"")):
+                    tree = {"t": "e", "n": [97], "a": [], "c": [{"t": "t", "v": txt}]}
+                    ops.append("ptree %s %s" % (hexs(b"<a>" + before + raw + after + b"</a>"), tree_op(tree)))
+                    tree2 = {"t": "e", "n": [97], "a": [], "c": [{"t": "e", "n": [98], "a": [], "c": []}, {"t": "t", "v": txt}]}
+                    ops.append("ptree %s %s" % (hexs(b"<a><b/>" + before + raw + after + b"</a>"), tree_op(tree2)))
     base.check_stateless(ctx, binary, ops, "roundtrip", "XmlSyntaxTrace", "XmlSyntaxTrace.cfg", key_of, per_exec=500)
 
 
